@@ -2,6 +2,12 @@
 and the signature function that labels a failing case for known_findings.jsonl."""
 
 PROPS = {
+    'C08': {
+        'families': [('c08', 40, 300, {'race': True})],
+        'rule': 'per scenario one shared instance {blockstore.ReadWrite on a real file, storage.StorageCar on a concurrency-safe in-memory file, DeferredCarWriter for a path} x options; 2-8 goroutines (2-16 thorough) each issuing 10-40 random calls {Put, Has, Get, AllKeysChan drained, GetSize} over a shared block alphabet, built and run under the Go race detector (GORACE log inspected per scenario), with panic recovery and a deadlock timeout; the timestamped invocation/response history is checked for real-time consistency (a block whose Put returned is found by every later Has/Get with exact bytes; nothing is reported that was never put) and the finalized file is decoded (each distinct key once under de-duplication, all successful puts present); distinct = distinct script text (scenario parameters)',
+        'trusted': ['Go race detector, runtime scheduler and memory model (the schedules explored are whatever the runtime produces; this run is validation and failing-schedule search, the deciding artefact is the theorem over the extracted lock table)', 'the syntactic lock/field analysis in extract/locks.go'],
+        'assumptions': ['OnPut registration is not in the property\'s operation list (it is unsynchronised by design)'],
+    },
     'C09': {
         'families': [('c09', 10, 120)],
         'rule': 'per generated archive: the archive and 8 structure-aware mutations of it (huge / non-minimal varints spliced over length prefixes, 8-byte header and index length fields overwritten with 0, 1, 2^40, 2^63-1, 2^63, 2^64-1, file length +/- 1, truncation, byte noise, appended bytes, raw random, cut-and-splice) x {default limits, small random MaxAllowedHeaderSize/SectionSize} x ZeroLengthSectionAsEOF x 15 parsing entry points (BlockReader Next and SkipNext over seekable and plain sources, Inspect full/quick, GenerateIndex seekable/plain, ReadOrGenerateIndex, index.ReadFrom on mutated index bytes + ForEach, blockstore.NewReadOnly + all queries, storage.OpenReadable + queries, ReplaceRootsInFile, ExtractV1File, root CarReader), each under recover() with the bytes allocated (runtime.MemStats.TotalAlloc) and the wall time measured; plus header/section limits probed at max-1, max, max+1; result classes compared with the model where one exists; distinct = distinct script text',
@@ -146,6 +152,8 @@ def signature(pid, script, I, S):
         return 'C07/' + fam + '-' + toks.get('kind', 'open') + '-differs-from-scan'
     if pid == 'C09':
         return 'C09/' + toks.get('ep', '?') + '-panic-alloc-or-class'
+    if pid == 'C08':
+        return 'C08/' + toks.get('api', '?') + '-concurrent-run-' + ('race' if 'race=1' in I else 'inconsistent')
     if pid == 'C20':
         return 'C20/' + fam + '-differs-from-lazy-direct-writer'
     if pid == 'C06':
